@@ -150,6 +150,30 @@ func (d *Deps) walk(v ssa.Value, fr *frame) {
 		d.Roots["free:"+x.Name()] = true
 	case *ssa.Global:
 		d.Roots["global:"+x.Name()] = true
+		// a package variable of an analysed package: whatever is stored into it (its initialiser runs in init)
+		if x.Pkg != nil && d.Descend != nil {
+			var fns []*ssa.Function
+			for _, m := range x.Pkg.Members {
+				if f, ok := m.(*ssa.Function); ok {
+					fns = append(fns, WithAnon(f)...)
+				}
+			}
+			for _, f := range fns {
+				if !d.Descend(f) && f.Name() != "init" {
+					continue
+				}
+				if f.Name() == "init" && len(fns) > 0 && !anyDescend(d, fns) {
+					continue
+				}
+				for _, b := range f.Blocks {
+					for _, in := range b.Instrs {
+						if st, ok := in.(*ssa.Store); ok && st.Addr == ssa.Value(x) {
+							d.walk(st.Val, nil)
+						}
+					}
+				}
+			}
+		}
 	case *ssa.Function:
 		d.Roots["func:"+funcFullName(x)] = true
 	case *ssa.Call:
@@ -414,6 +438,15 @@ func (d *Deps) mutators(v ssa.Value, fr *frame) {
 func (d *Deps) Visited(v ssa.Value) bool {
 	for k := range d.seen {
 		if k.v == v {
+			return true
+		}
+	}
+	return false
+}
+
+func anyDescend(d *Deps, fns []*ssa.Function) bool {
+	for _, f := range fns {
+		if f.Name() != "init" && d.Descend(f) {
 			return true
 		}
 	}
